@@ -94,7 +94,7 @@ func cfgFor(i int) gen.Cfg {
 		c.ExcludePaths = []string{"gen_legacy"}
 	case 5:
 		c.ScanTests = true
-		c.ExcludePaths = []string{"zz_skip", "gen_legacy", "testdata"}
+		c.ExcludePaths = []string{"zz_skip", "gen_legacy", "testdata", "Gen_Old"}
 	}
 	return c
 }
